@@ -327,6 +327,8 @@ func c14(r *Report, s *Sem) {
 	checkFirstEnvelopeGate(r, s, R7)
 	R8 := r.Rule("R8", "a refusal by a callback ends the handshake: an error returned by the registration callback, and a failed write of the established envelope, are returned by the authentication driver (never dropped in a shadowed variable, which would retry or establish a refused session)", 2)
 	checkCallbackErrorsPropagate(r, s, R8)
+	R9 := r.Rule("R9", "helper goroutines end with the step that started them: when a function starts a goroutine literal that waits on a channel the function made locally (its stop signal), every path from the go statement to an exit of the function closes (or sends on) that channel — a helper released only on the success path stays parked for the server's lifetime after each failed step (every go statement with a literal is inspected)", 5)
+	checkHelpersReleased(r, s, R9)
 
 	// ---- R5
 	callers := p.callersOf(fn)
@@ -361,4 +363,152 @@ func firstExit(p *Prog, exits []ssa.Instruction) string {
 		return ""
 	}
 	return " (first: " + p.instrPos(exits[0]) + ")"
+}
+
+// checkHelpersReleased: see C14.R9.
+func checkHelpersReleased(r *Report, s *Sem, R string) {
+	p := r.P
+	n := 0
+	for _, fn := range p.LimeFuncs() {
+		eachInstr(fn, func(in ssa.Instruction) {
+			g, ok := in.(*ssa.Go)
+			if !ok {
+				return
+			}
+			mc, ok := g.Call.Value.(*ssa.MakeClosure)
+			if !ok {
+				return
+			}
+			lit, ok := mc.Fn.(*ssa.Function)
+			if !ok || lit.Parent() != fn {
+				return
+			}
+			// channels made by fn on which the literal waits
+			waits := map[*ssa.MakeChan]bool{}
+			note := func(ch ssa.Value) {
+				for _, l := range leaves(ch) {
+					if m, ok := stripConv(l).(*ssa.MakeChan); ok && m.Parent() == fn {
+						waits[m] = true
+					}
+				}
+			}
+			eachInstr(lit, func(x ssa.Instruction) {
+				switch y := x.(type) {
+				case *ssa.Select:
+					for _, st := range y.States {
+						if st.Dir == types.RecvOnly {
+							note(st.Chan)
+						}
+					}
+				case *ssa.UnOp:
+					if y.Op == token.ARROW {
+						note(y.X)
+					}
+				}
+			})
+			local := 0
+			for stop := range waits {
+				if !chanEscapes(stop, lit) {
+					local++
+				}
+			}
+			if local == 0 {
+				n++
+				r.Trivial(R, "func "+fnName(fn)+" / goroutine "+fnName(lit)+" inspected", p.instrPos(g), true, "waits on no stop channel private to the function that started it")
+			}
+			for stop := range waits {
+				// a channel that escapes fn (stored in a field, returned, passed on) may be signalled by others
+				if chanEscapes(stop, lit) {
+					continue
+				}
+				n++
+				isRelease := func(c *ssa.CallCommon) bool {
+					b, isB := c.Value.(*ssa.Builtin)
+					if !isB || b.Name() != "close" {
+						return false
+					}
+					for _, l := range leaves(c.Args[0]) {
+						if stripConv(l) == ssa.Value(stop) {
+							return true
+						}
+					}
+					return false
+				}
+				exits := walkFrom(fn, g, walkOpts{
+					barrier: func(x ssa.Instruction) bool {
+						switch y := x.(type) {
+						case *ssa.Call:
+							return isRelease(&y.Call)
+						case *ssa.Send:
+							for _, l := range leaves(y.Chan) {
+								if stripConv(l) == ssa.Value(stop) {
+									return true
+								}
+							}
+						}
+						return false
+					},
+					deferBarrier: func(d *ssa.Defer) bool { return isRelease(&d.Call) },
+				})
+				r.Check(R, "func "+fnName(fn)+" / goroutine "+fnName(lit)+" is released on every exit", p.instrPos(g), len(exits) == 0, fmt.Sprintf("%d exit(s) reachable from the go statement without closing the channel the goroutine waits on%s", len(exits), firstExit(p, exits)))
+			}
+		})
+	}
+	if n == 0 {
+		r.Undecided(R, "goroutine literals", "-", "no go statement with a function literal found in the package")
+	}
+}
+
+// chanEscapes: the channel value is used by anything other than close/send/receive/select in its function and as a
+// capture of the given literal.
+func chanEscapes(m *ssa.MakeChan, lit *ssa.Function) bool {
+	esc := false
+	var visit func(v ssa.Value, d int)
+	visit = func(v ssa.Value, d int) {
+		if d > 4 || v.Referrers() == nil {
+			return
+		}
+		for _, ref := range *v.Referrers() {
+			switch x := ref.(type) {
+			case *ssa.Store:
+				if al, ok := x.Addr.(*ssa.Alloc); ok && x.Val == v {
+					// spilled to a cell captured by closures: follow the cell's loads
+					for _, r2 := range *al.Referrers() {
+						if u, ok := r2.(*ssa.UnOp); ok {
+							visit(u, d+1)
+						} else if mc, ok := r2.(*ssa.MakeClosure); ok {
+							if f, ok := mc.Fn.(*ssa.Function); !ok || (f != lit && f.Parent() != m.Parent()) {
+								esc = true
+							}
+						}
+					}
+					continue
+				}
+				esc = true
+			case *ssa.Call:
+				if b, ok := x.Call.Value.(*ssa.Builtin); ok && (b.Name() == "close" || b.Name() == "len" || b.Name() == "cap") {
+					continue
+				}
+				esc = true
+			case *ssa.Defer:
+				if b, ok := x.Call.Value.(*ssa.Builtin); ok && b.Name() == "close" {
+					continue
+				}
+				esc = true
+			case *ssa.Send, *ssa.Select, *ssa.UnOp, *ssa.DebugRef:
+			case *ssa.ChangeType:
+				visit(x, d+1)
+			case *ssa.MakeClosure:
+				if f, ok := x.Fn.(*ssa.Function); !ok || f.Parent() != m.Parent() {
+					esc = true
+				}
+			case *ssa.Phi:
+				visit(x, d+1)
+			default:
+				esc = true
+			}
+		}
+	}
+	visit(m, 0)
+	return esc
 }
